@@ -355,8 +355,13 @@ def spec_is_empty(s):
     return not any(math.isfinite(x) for x in _tvals(tmin)) and not any(math.isfinite(x) for x in _tvals(tmax))
 
 
-def eps_name(path, sym_index, j):
-    return ("path_" if path else "") + "eps_%d_%d" % (sym_index, j)
+def eps_name(path, sym_index, j, lin=False):
+    return ("path_" if path else "") + ("lineps_%d_%d" if lin else "eps_%d_%d") % (sym_index, j)
+
+
+def is_linearized(inst, s):
+    """goal whose order is replaced by the piecewise-linear majorant (LinearizedOrderGoalProgrammingMixin)"""
+    return bool(inst.get("linearize")) and s["kind"] != "min" and s["order"] > 1 and not s.get("critical")
 
 
 def var_forms(pr, X, name, path, size, m, T, times):
@@ -437,7 +442,7 @@ def capture(pr, priority):
                 continue
             for m in range(E):
                 if s["kind"] != "min" and not is_min_like(s):
-                    name = eps_name(path, sym_index, j)
+                    name = eps_name(path, sym_index, j, is_linearized(inst, s))
                     fm = var_forms(pr, X, name, path, size, m, T, times)
                     # cross-check the assumed layout against the decoded results
                     r = np.array(res[m][name], dtype=float)
@@ -486,6 +491,13 @@ def is_min_like(s):
 def run_instance(inst, mode=None, capture_full=True, extra_bases=(), twice=False):
     """returns (outcome, problem); outcome = True/False (solver) or ('raise', ExcName, msg)"""
     mode = mode or inst["mode"]
+    if inst.get("linearize"):
+        from rtctools.optimization.linearized_order_goal_programming_mixin import (
+            LinearizedOrderGoalProgrammingMixin,
+        )
+
+        if LinearizedOrderGoalProgrammingMixin not in extra_bases:
+            extra_bases = tuple(extra_bases) + (LinearizedOrderGoalProgrammingMixin,)
     cls = problem_class(mode, extra_bases)
     pr = cls(inst=inst)
     pr.capture = capture_full
